@@ -15,6 +15,9 @@ impl Size {
     //@ fn impl Size :: new src=src/terminal.rs ret=r
     //@+ ensures r.height == height, r.width == width,
 
+    //@ fn impl Size :: empty src=src/terminal.rs ret=r
+    //@+ ensures r.height == 0, r.width == 0,
+
     //@ fn impl Size :: is_empty src=src/terminal.rs ret=r
     //@+ ensures r == (self.height == 0 || self.width == 0),
 }
@@ -49,7 +52,7 @@ impl Image {
     #[verifier::external_body]
     fn size(&self) -> (r: Size) ensures r.height == self.spec_height(), r.width == self.spec_width() { unimplemented!() }
 
-    //@ fn impl Image :: round_up ret=r
+    //@ fn? impl Image :: round_up ret=r
     //@+ requires b > 0,
     //@+ ensures r * b >= a, a > 0 ==> (r - 1) * b < a, a == 0 ==> r == 0,
     //@proof start proof { lemma_div_facts(a as int, b as int); }
@@ -61,8 +64,9 @@ impl Image {
     //@+     (self.spec_height() > 0 && self.spec_width() > 0 && pixels_per_cell.height > 0 && pixels_per_cell.width > 0) ==>
     //@+         r.height * pixels_per_cell.height >= self.spec_height() && (r.height - 1) * pixels_per_cell.height < self.spec_height()
     //@+         && r.width * pixels_per_cell.width >= self.spec_width() && (r.width - 1) * pixels_per_cell.width < self.spec_width(),
-    //@subst N5 nested fn extracted separately (above) /fn round_up\(a: usize, b: usize\) -> usize \{[\s\S]*?\n        \}\n//
-    //@subst N5 nested fn call qualified /round_up\(self\./Image::round_up(self./
+    //@proof start proof { if pixels_per_cell.height > 0 { lemma_div_facts(self.spec_height() as int, pixels_per_cell.height as int); } if pixels_per_cell.width > 0 { lemma_div_facts(self.spec_width() as int, pixels_per_cell.width as int); } }
+    //@subst? N5 nested fn extracted separately (above) /fn round_up\(a: usize, b: usize\) -> usize \{[\s\S]*?\n        \}\n//
+    //@subst? N5 nested fn call qualified /round_up\(self\./Image::round_up(self./
 }
 
 } // verus!
